@@ -159,7 +159,52 @@ func runC04(c *Ctx, r *Report) {
 	if nSet == 0 {
 		r.Undecided("no call to Cache.Set found")
 	}
-	r.Floor("C04.R1", 5)
+	// the key list is not written between the lookup and the store
+	{
+		f := c.containerFresh()
+		afn := c.SSAFn(c.Fn("eval", "State.applyFunction"))
+		cacheGet, cacheSet := c.Fn("eval", "Cache.Get"), c.Fn("eval", "Cache.Set")
+		gets, sets := callsIn(afn, cacheGet), callsIn(afn, cacheSet)
+		if len(gets) != 1 || len(sets) != 1 {
+			r.Undecided("C04.R1: expected one Cache.Get and one Cache.Set in applyFunction")
+		} else {
+			get, set := gets[0].(*ssa.Call), sets[0].(*ssa.Call)
+			key := get.Common().Args[2]
+			var writers []string
+			eachInstr(afn, func(in ssa.Instruction) {
+				call, ok := in.(*ssa.Call)
+				if !ok || call == get || call == set || !reachesInstr(get, call) || !reachesInstr(call, set) {
+					return
+				}
+				callee := call.Common().StaticCallee()
+				if callee == nil {
+					return
+				}
+				for i, a := range call.Common().Args {
+					if a != key || i >= len(callee.Params) {
+						continue
+					}
+					if w := f.mutates[callee.Params[i]]; len(w) > 0 {
+						var ws []string
+						for k := range w {
+							ws = append(ws, k)
+						}
+						sort.Strings(ws)
+						writers = append(writers, ssaFuncName(callee)+": "+strings.Join(ws, ", "))
+					}
+				}
+			})
+			// direct writes into the list in applyFunction itself
+			f.rawWrites(afn, func(in ssa.Instruction, target ssa.Value, desc string) {
+				if target == key && reachesInstr(get, in) && reachesInstr(in, set) {
+					writers = append(writers, "applyFunction: "+desc)
+				}
+			})
+			r.Check(len(writers) == 0, "C04.R1", ssaFuncName(afn), "the argument list is not written between Cache.Get and Cache.Set", c.Pos(set.Pos()),
+				"the list used as the lookup key is written in place before the result is stored under it ("+strings.Join(writers, "; ")+"): the result of f(1,[[4]]) is stored under the key of f(1,[4]) when the variadic spread overwrites the last argument, and the next f(1,[4]) returns it")
+		}
+	}
+	r.Floor("C04.R1", 6)
 
 	// ---- R2 ----
 	getMissIdx := fieldIndex(envT, "getMiss")
@@ -295,23 +340,10 @@ func runC04(c *Ctx, r *Report) {
 			r.Undecided("applyExtension: no callback invocation found")
 		}
 	}
-	// applyFunction: propagation of cantCache
-	{
-		fn := c.SSAFn(c.Fn("eval", "State.applyFunction"))
-		ok := false
-		for _, tc := range callsIn(fn, trigger) {
-			for _, cc := range controlling(tc.Block()) {
-				if call, isCall := cc.Cond.(*ssa.Call); isCall && isCallTo(call, cantCache) && cc.Edge == 0 {
-					ok = true
-				}
-			}
-		}
-		r.Check(ok, "C04.R2", ssaFuncName(fn), "callee cantCache propagates to the caller environment", c.Pos(fn.Pos()),
-			"a call to a non-cacheable extension inside a callee no longer marks the caller uncacheable")
-	}
-	// applyFunction: the propagation test is on every exit that the flag can reach. The only edge that
-	// excludes the flag is "miss counter unchanged" (TriggerNoCache bumps it whenever it sets the flag, checked
-	// above; the two writer obligations below make that an invariant of the callee environment).
+	// applyFunction: whatever made the callee uncacheable makes the caller uncacheable. After the body
+	// evaluation every return is preceded by TriggerNoCache() on the (restored) caller environment, unless the
+	// path established both "miss counter unchanged" and "cantCache flag false" (or only the former, the flag
+	// implying a changed counter: TriggerNoCache bumps it, see the writer obligations below).
 	{
 		fn := c.SSAFn(c.Fn("eval", "State.applyFunction"))
 		fname := ssaFuncName(fn)
@@ -320,62 +352,77 @@ func runC04(c *Ctx, r *Report) {
 		for _, call := range callsIn(fn, cantCache) {
 			flagRead, _ = call.(*ssa.Call)
 		}
-		if flagRead == nil || len(callsIn(fn, cantCache)) != 1 {
-			r.Undecided("applyFunction: expected exactly one read of the callee's CantCache()")
+		var after ssa.Instruction
+		for _, call := range callsIn(fn, getMisses) {
+			if after == nil || instrDominates(after, call.(ssa.Instruction)) {
+				after = call.(ssa.Instruction)
+			}
+		}
+		if after == nil {
+			r.Undecided("applyFunction: no read of the callee's miss counter after the body evaluation")
 		} else {
 			isMisses := func(v ssa.Value) bool {
 				call, ok := v.(*ssa.Call)
 				return ok && isCallTo(call, getMisses)
 			}
-			// blocks entered only through the "counter unchanged" edge
-			unchanged := map[*ssa.BasicBlock]bool{}
-			for _, b := range fn.Blocks {
-				ifi, ok := b.Instrs[len(b.Instrs)-1].(*ssa.If)
-				if !ok {
-					continue
+			type st struct {
+				b         *ssa.BasicBlock
+				unchanged bool
+			}
+			seen := map[st]bool{}
+			var bad *pathResult
+			var walk func(b *ssa.BasicBlock, from int, unchanged bool, trail []*ssa.BasicBlock)
+			walk = func(b *ssa.BasicBlock, from int, unchanged bool, trail []*ssa.BasicBlock) {
+				if bad != nil {
+					return
 				}
-				bin, ok := ifi.Cond.(*ssa.BinOp)
-				if !ok || !isMisses(bin.X) || !isMisses(bin.Y) || bin.X == bin.Y {
-					continue
+				if from == 0 {
+					if seen[st{b, unchanged}] {
+						return
+					}
+					seen[st{b, unchanged}] = true
 				}
-				var eq *ssa.BasicBlock
-				switch bin.Op {
-				case token.NEQ:
-					eq = b.Succs[1]
-				case token.EQL:
-					eq = b.Succs[0]
+				trail = append(trail, b)
+				for i := from; i < len(b.Instrs); i++ {
+					x := b.Instrs[i]
+					if isCallTo(x, trigger) {
+						return // propagated
+					}
+					if _, isRet := x.(*ssa.Return); isRet {
+						if !unchanged {
+							bad = &pathResult{exit: x, trace: append([]*ssa.BasicBlock{}, trail...)}
+						}
+						return
+					}
+					if _, isPanic := x.(*ssa.Panic); isPanic {
+						return
+					}
 				}
-				if eq != nil && len(eq.Preds) == 1 {
-					unchanged[eq] = true
+				if ifi, ok := b.Instrs[len(b.Instrs)-1].(*ssa.If); ok {
+					if bin, ok := ifi.Cond.(*ssa.BinOp); ok && isMisses(bin.X) && isMisses(bin.Y) && bin.X != bin.Y && (bin.Op == token.NEQ || bin.Op == token.EQL) {
+						eqEdge := 1
+						if bin.Op == token.EQL {
+							eqEdge = 0
+						}
+						walk(b.Succs[eqEdge], 0, true, trail)
+						walk(b.Succs[1-eqEdge], 0, false, trail)
+						return
+					}
+				}
+				for _, sx := range b.Succs {
+					walk(sx, 0, unchanged, trail)
 				}
 			}
-			sat := func(in ssa.Instruction) bool {
-				if unchanged[in.Block()] && in == in.Block().Instrs[0] {
-					return true
-				}
-				ifi, ok := in.(*ssa.If)
-				if !ok || ifi.Cond != ssa.Value(flagRead) {
-					return false
-				}
-				// the true edge calls TriggerNoCache before any return
-				tb := ifi.Block().Succs[0]
-				if len(tb.Preds) != 1 || len(tb.Instrs) == 0 {
-					return false
-				}
-				if isCallTo(tb.Instrs[0], trigger) {
-					return true
-				}
-				return mustPassBefore(tb.Instrs[0], func(x ssa.Instruction) bool { return isCallTo(x, trigger) }, isReturn) == nil
-			}
-			bad := mustPassBefore(flagRead, sat, isReturn)
-			desc := "every return after the body evaluation tests the callee's cantCache flag (or is on the miss-counter-unchanged edge)"
+			walk(after.Block(), instrIndex(after)+1, false, nil)
+			desc := "the callee's uncacheability reaches the caller on every return after the body evaluation"
 			if bad != nil {
 				r.Fail("C04.R2", fname, desc, c.Pos(instrPos(bad.exit)),
-					"a return is reachable after the body evaluation without the cantCache test: a callee that called a non-cacheable extension (and e.g. returned an error) leaves its caller cacheable", c.tracePath(bad)...)
+					"a return is reachable after the body evaluation on which the callee's miss counter may have changed and TriggerNoCache() was not called on the caller's environment: a function that only calls an impure function (one that reads a variable outside of its arguments, or a non-cacheable extension) stays cacheable itself (x=1; g=func(){x}; f=func(){g()}; f(); x=2; f() gives 1 twice)", c.tracePath(bad)...)
 			} else {
-				r.Ok("C04.R2", fname, desc, c.Pos(flagRead.Pos()))
+				r.Ok("C04.R2", fname, desc, c.Pos(after.Pos()))
 			}
 		}
+		_ = flagRead
 		// writers of the two fields
 		for _, f := range c.ModuleSSAFuncs() {
 			eachInstr(f, func(in ssa.Instruction) {
